@@ -5,7 +5,7 @@ import Driver.Proto
 
 One case line = one chain: `C01.<label> <step> <step> …`; a step is `name|arg|arg…` (fields starting with `#` are
 information for the Rust side only and are dropped).  Array arguments are store positions `@3`; the list-taking
-operations take `@1,2,3` (positions) or `@L5` (all members of the list stored at 5).  A step named `u.<op>` is an
+operations take `@1,2,3` (positions) or `@L5` (all members of the list stored at 5).  A step named `s.<op>` is a string-array operation; a step named `u.<op>` is an
 unmodelled call: its last field `=A2,3` / `=L2,3/2,3` / `=N` is what the real call returned when the chain was generated.
 Answer: `ok r0;r1;…` with one record per step: `A<shape>` | `L<shape>/<shape>…` | `E` | `P` | `S`(kipped) | `X`(extern).
 -/
@@ -65,9 +65,41 @@ def operatorOps : List (String × OpKind) :=
     [("op_" ++ o, OpKind.bitop), ("op_" ++ o ++ "_s", .bitScalar), ("op_" ++ o ++ "_assign", .bitAssign), ("op_" ++ o ++ "_assign_s", .bitAssignScalar)]) ++
   [("op_neg", .unop), ("op_not", .unop)]
 
+/-- one-operand string operations (`lift1`) -/
+def strUnaryOps := ["capitalize", "lower", "upper", "swapcase", "translate", "str_len", "is_alpha", "is_alnum", "is_decimal",
+  "is_numeric", "is_digit", "is_space", "is_lower", "is_upper"]
+/-- two-string operations (`lift2`) -/
+def strBinaryOps := ["add", "join", "partition", "rpartition", "equal", "not_equal", "greater_equal", "less_equal", "greater",
+  "less", "count", "starts_with", "ends_with", "find", "rfind", "index", "rindex", "lstrip", "rstrip"]
+def optRef? (s : String) : Option (Option Nat) := if s == "none" then some none else (ref? s).map some
+
+/-- the string-array steps `s.<name>` (the prefix keeps them apart from the numeric `add`, `multiply`, `equal`, … ) -/
+def parseStrStep (name : String) (args : List String) : Option Op :=
+  match name, args with
+  | "strip", [a, c] => do some (.strStrip (← ref? a) (← ref? c))
+  | "compare", [a, b, o] => do
+    some (.strCompare (← ref? a) (← ref? b) (if o.startsWith "o:" then (o.drop 2).toString.toList else o.toList))
+  | "multiply", [a, n] => do some (.strMultiply (← ref? a) (← ref? n))
+  | "splitlines", [a, k] => do some (.strSplitlines (← ref? a) (← optBool? k))
+  | "split", [a, sp, m] => do some (.strSplit (← ref? a) (← optRef? sp) (← optNat? m))
+  | "rsplit", [a, sp, m] => do some (.strSplit (← ref? a) (← optRef? sp) (← optNat? m))
+  | "replace", [a, o, n, c] => do some (.strReplace (← ref? a) (← ref? o) (← ref? n) (← optNat? c))
+  | nm, [a, w, f] =>
+    if ["center", "ljust", "rjust"].contains nm then do some (.strPad (← ref? a) (← ref? w) (f != "none")) else none
+  | nm, [a, b] => if strBinaryOps.contains nm then do some (.strBinary (← ref? a) (← ref? b)) else none
+  | nm, [a] => if strUnaryOps.contains nm then do some (.strUnary (← ref? a)) else none
+  | _, _ => none
+
 def parseStep (name : String) (args : List String) : Option Op :=
   if name.startsWith "u." then (args.getLast?).bind ext? |>.map Op.extern else
+  if name.startsWith "s." then parseStrStep (name.drop 2).toString args else
   match name, args with
+  | "slice", [a, lo, hi] => do some (.slice (← ref? a) (← parseNat? lo) (← parseNat? hi))
+  | "indices_at", [a, ix] => do some (.indicesAt (← ref? a) (← parseNatList? ix))
+  | "filter_map", [a] => do some (.filterMapNonzero (← ref? a))
+  | "clip0", [a] => do some (.clipOpt (← ref? a) none none)
+  | "clip1", [a, lo] => do some (.clipOpt (← ref? a) (some (← ref? lo)) none)
+  | "clip2", [a, hi] => do some (.clipOpt (← ref? a) none (some (← ref? hi)))
   | "new", [n, off, sh] => do some (.new (← parseNat? n) (← parseInt? off) (← shape? sh))
   | "create", [n, sh, nd] => do some (.create (← parseNat? n) (← shape? sh) (← optNat? nd))
   | "single", [] => some .single
